@@ -366,6 +366,78 @@ theorem saveOrder_refs_first (lm : LoadedMs) (rank : Str → Nat)
   rw [saveOrder_eq] at h
   exact (queueAll_spec (byDepth lm) rank hrank (byDepth lm) ([], []) (fun _ h => h) (qi_empty _)).1.d pre x post h y hy
 
+/-! ## every referenced Manifest first -/
+
+theorem mem_split {α : Type} (l : List α) (x : α) (h : x ∈ l) : ∃ a b, l = a ++ x :: b := List.append_of_mem h
+
+theorem nodup_paths_eq (l : List X) (hnd : (paths l).Nodup) (z y : X) (hz : z ∈ l) (hy : y ∈ l) (h : z.1 = y.1) : z = y := by
+  obtain ⟨a, b, hab⟩ := mem_split _ z hz
+  subst hab
+  unfold paths at hnd
+  simp only [List.map_append, List.map_cons] at hnd
+  rcases List.mem_append.mp hy with hya | hyb
+  · exfalso
+    have := (List.nodup_append.mp hnd).2.2 y.1 (List.mem_map.mpr ⟨y, hya, rfl⟩) z.1 (by simp)
+    exact this h.symm
+  · rcases List.mem_cons.mp hyb with e | hyb
+    · exact e.symm
+    · exfalso
+      have h2 := (List.nodup_cons.mp (List.nodup_append.mp hnd).2.1).1
+      exact h2 (h ▸ List.mem_map.mpr ⟨y, hyb, rfl⟩)
+
+/-- **a Manifest is written after every loaded Manifest it references** - in its own directory or in a deeper one -
+    in whatever order they were loaded: given distinct paths, wherever `x` stands in the save order, a loaded Manifest
+    `y` that an entry of `x` names (`y.1 = dir(x)/p`) and that lies in `x`'s directory or in a longer one stands before it.
+    (Same directory: the reference pass, `saveOrder_refs_first`; longer directory: the sort by depth,
+    `C03_save_children_first`, with the completeness of the order.) -/
+theorem saveOrder_referenced_first (lm : LoadedMs) (rank : Str → Nat)
+    (hrank : ∀ x ∈ byDepth lm, ∀ y ∈ refsIn (byDepth lm) x, rank y.1 < rank x.1)
+    (hkeys : (paths (byDepth lm)).Nodup)
+    (pre : List X) (x : X) (post : List X) (h : saveOrder lm = pre ++ x :: post)
+    (y : X) (hy : y ∈ byDepth lm) (hne : y.1 ≠ x.1)
+    (p : Str) (n : Nat) (c : List (Str × Str)) (hp : Entry.file .MANIFEST p n c ∈ x.2.2) (hyp : y.1 = pjoin x.2.1 p)
+    (hcase : dirname y.1 = x.2.1 ∨ x.2.1.length < y.2.1.length) :
+    y.1 ∈ paths pre := by
+  rcases hcase with hsame | hlt
+  · -- same directory: `y` is one of the references the pass moves forward
+    apply saveOrder_refs_first lm rank hrank pre x post h y
+    unfold refsIn
+    refine List.mem_filterMap.mpr ⟨y.1, ?_, ?_⟩
+    · unfold sameDirRefsOf
+      refine List.mem_filterMap.mpr ⟨_, hp, ?_⟩
+      simp only
+      rw [← hyp]
+      simp [hsame]
+    · -- distinct paths: the Manifest found under this path is `y`
+      cases hf : (byDepth lm).find? (·.1 == y.1) with
+      | none =>
+        have := List.find?_eq_none.mp hf y hy
+        simp at this
+      | some z =>
+        have hz : z ∈ byDepth lm := List.mem_of_find?_eq_some hf
+        have hz1 : z.1 = y.1 := by
+          have := List.find?_some hf
+          simpa using this
+        rw [nodup_paths_eq _ hkeys z y hz hy hz1]
+  · -- a longer directory: it cannot come after `x` in an order of non-increasing directory length
+    have hcomp := saveOrder_complete lm rank hrank y hy
+    rw [h] at hcomp
+    unfold paths at hcomp ⊢
+    simp only [List.map_append, List.map_cons, List.mem_append, List.mem_cons] at hcomp
+    rcases hcomp with hc | hc | hc
+    · exact hc
+    · exact absurd hc hne
+    · exfalso
+      have hsorted := C03_save_children_first lm
+      rw [h] at hsorted
+      have hx := (List.pairwise_append.mp hsorted).2.1
+      obtain ⟨z, hz, hz1⟩ := List.mem_map.mp hc
+      have h1 := (List.pairwise_cons.mp hx).1 z hz
+      have hzall : z ∈ byDepth lm := saveOrder_subset lm rank hrank z (by rw [h]; simp [hz])
+      have hzy : z = y := nodup_paths_eq _ hkeys z y hzall hy hz1
+      rw [hzy] at h1
+      omega
+
 /-! ## Non-vacuity: the layout of finding F30 -/
 
 /-- `d/Manifest` lists `Manifest.extra` and (a second time) `Manifest.deep`; `d/Manifest.extra` lists `Manifest.deep`;
